@@ -245,6 +245,12 @@ class _Simu(_IObserver, _params.Updatable, ABC):
 
         K, C, M, _ = self.Get_K_C_M_F(problemType)
 
+        # with Lagrange conditions the matrices also carry the (empty) rows and columns of the
+        # multipliers, which the nodal vectors u, v, a do not have
+        size = self.mesh.Nn * self.Get_dof_n(problemType)
+        if K.shape[0] != size:
+            K, C, M = K[:size, :size], C[:size, :size], M[:size, :size]
+
         reaction = np.zeros(K.shape[0], dtype=float)
 
         reaction[dofs] = K[dofs] @ self._Get_u_n(problemType)
